@@ -397,7 +397,7 @@ func (a *Adv) AuthProbes(perTxn int) int {
 			}
 		}
 		// witness tampers (no control needed: the content is the honest one)
-		wt := rapid.IntRange(0, 5).Draw(t, "v1witness")
+		wt := rapid.IntRange(0, 6).Draw(t, "v1witness")
 		blk := CloneBlock(a.Honest)
 		x := &blk.Transactions[ti]
 		label := ""
@@ -426,6 +426,22 @@ func (a *Adv) AuthProbes(perTxn int) int {
 			if !v1UsesUnknownAlgo(orig) && x.Signatures[0].CoveredFields.WholeTransaction {
 				x.Signatures[0].CoveredFields = FullCoverage(*x)
 				label = "v1/witness/change-covered-fields"
+			}
+		case 6: // cut an ed25519 signature short (emptied, half, one byte missing): any position, the last one preferred
+			if !v1UsesUnknownAlgo(orig) {
+				si := len(x.Signatures) - 1
+				if rapid.IntRange(0, 2).Draw(t, "cutWhich") == 0 {
+					si = rapid.IntRange(0, len(x.Signatures)-1).Draw(t, "cutSig")
+				}
+				if sig := x.Signatures[si].Signature; len(sig) == 64 {
+					cut := sig[:rapid.SampledFrom([]int{0, 0, 32, 63}).Draw(t, "cutLen")]
+					// a short signature means itself zero-padded to 64 bytes (as in siad): cutting off bytes that are
+					// zero anyway (the top byte of S is zero for one signature in sixteen) changes nothing
+					if !bytes.Equal(append(append([]byte{}, cut...), make([]byte, 64-len(cut))...), sig) {
+						x.Signatures[si].Signature = cut
+						label = "v1/witness/truncate-signature"
+					}
+				}
 			}
 		case 5: // substitute other unlock conditions, correctly signed by their own key
 			sub := types.StandardUnlockConditions(Pub(3))
@@ -721,6 +737,57 @@ func (a *Adv) AuthProbes(perTxn int) int {
 				n++
 			}
 			break
+		}
+	}
+	// Two outputs of one key spent by one v1 transaction under identical partial covered fields: both signatures are
+	// the same 64 bytes. Emptying (or cutting) the second one must invalidate the block: every signature stands for
+	// itself, whatever an earlier signature of the transaction left behind. Control: the untouched transaction.
+	if a.v1Allowed() {
+		used := map[types.SiacoinOutputID]bool{}
+		for _, t := range a.Honest.Transactions {
+			for _, in := range t.SiacoinInputs {
+				used[in.ParentID] = true
+			}
+		}
+		for _, t := range a.Honest.V2Transactions() {
+			for _, in := range t.SiacoinInputs {
+				used[in.Parent.ID] = true
+			}
+		}
+		byAddr := map[types.Address][]types.SiacoinElement{}
+		for _, e := range a.G.C.Store.SortedSC() {
+			if !used[e.ID] && e.MaturityHeight <= a.Child && !e.SiacoinOutput.Value.IsZero() {
+				byAddr[e.SiacoinOutput.Address] = append(byAddr[e.SiacoinOutput.Address], e)
+			}
+		}
+		var addrs []types.Address
+		for ad, es := range byAddr {
+			if l, ok := a.G.W.Locks[ad]; ok && len(es) >= 2 && l.UC != nil && len(l.UC.PublicKeys) == 1 && l.UC.SignaturesRequired == 1 &&
+				l.UC.PublicKeys[0].Algorithm == types.SpecifierEd25519 && l.Spendable(false, a.Child, MedianTimestamp(a.CS)) {
+				addrs = append(addrs, ad)
+			}
+		}
+		sort.Slice(addrs, func(i, j int) bool { return bytes.Compare(addrs[i][:], addrs[j][:]) < 0 })
+		if len(addrs) > 0 {
+			es, lock := byAddr[addrs[0]], a.G.W.Locks[addrs[0]]
+			txn := types.Transaction{
+				SiacoinInputs:  []types.SiacoinInput{{ParentID: es[0].ID, UnlockConditions: *lock.UC}, {ParentID: es[1].ID, UnlockConditions: *lock.UC}},
+				SiacoinOutputs: []types.SiacoinOutput{{Value: es[0].SiacoinOutput.Value.Add(es[1].SiacoinOutput.Value), Address: MakeLock(LockSpec{Kind: 0, K1: 1}).Address()}},
+			}
+			SignV1(a.CS, &txn, true)
+			if len(txn.Signatures) == 2 && len(txn.Signatures[1].Signature) == 64 {
+				bad := CloneV1(txn)
+				cut := bad.Signatures[1].Signature[:rapid.SampledFrom([]int{0, 0, 31, 63}).Draw(t, "sameKeyCut")]
+				if !bytes.Equal(append(append([]byte{}, cut...), make([]byte, 64-len(cut))...), bad.Signatures[1].Signature) {
+					bad.Signatures[1].Signature = cut
+					tb, cb := CloneBlock(a.Honest), CloneBlock(a.Honest)
+					tb.Transactions = append(tb.Transactions, bad)
+					cb.Transactions = append(cb.Transactions, txn)
+					if a.emitPair(tb, cb, "v1/witness/second-signature-cut-same-key-same-sighash", nil) {
+						n++
+					}
+				}
+			}
 		}
 	}
 	// v1 Foundation update appended to a transaction whose Foundation-controlled input is only partially
